@@ -4,7 +4,8 @@
 
   OBLIGATIONS (checked against the axiom audit by the harness):
     gen_tables_as_modelled extracted_codecs_ascii default_pref_ok
-    xml_roundtrip_events output_wellformed_events xml_roundtrip_partial xml_roundtrip_outputside_partial
+    xml_roundtrip xml_roundtrip_events output_wellformed_events xml_roundtrip_partial
+    xml_roundtrip_outputside_partial
     tokenizer_inverts_serializer
     ser_idempotent_partial builder_stream_not_idemOK
     explicit_default_not_undeclared
@@ -17,6 +18,7 @@ import Genshi.Lemmas.XmlEmptyTag
 import Genshi.Lemmas.XmlEncode
 import Genshi.Lemmas.XmlIdem
 import Genshi.Lemmas.XmlTxtB
+import Genshi.Lemmas.XmlMerge
 import Genshi.Model.XmlParser
 namespace Genshi.Props.C02
 open Genshi Genshi.Xml Genshi.Escape Genshi.Xml.Reader
@@ -137,12 +139,9 @@ theorem xml_roundtrip_outputside_partial (pref : List (Str × Str)) (hpref : pre
     (unrepresentable characters of text and attribute values as character
     references) an XML reader reads exactly the events `s` denotes.
 
-    Full statement (`xml_roundtrip`): the same without the last clause of
-    `inputTextOK`.  Missing: adjacent TEXT events (the builder produces them for
-    adjacent string children; the parser never does) are written as one run of
-    character data and read back as one event, so the conclusion needs
-    `canonS s` with adjacent text merged; the merging lemma is not proved.  The
-    oracle on the real code compares with coalesced text. -/
+    The full statement is `xml_roundtrip` below (adjacent and empty TEXT events
+    allowed, the reader's answer compared up to merging of character data);
+    this is the special case without merging. -/
 theorem xml_roundtrip_partial (pref : List (Str × Str)) (hpref : prefOK pref = true)
     (rep : Char → Bool) (hr : AsciiRep rep) (s : Stream)
     (hn : WellNested s) (h : docOK (emptyTag s) = true)
@@ -151,6 +150,42 @@ theorem xml_roundtrip_partial (pref : List (Str × Str)) (hpref : prefOK pref = 
       Reader.read (encodeText rep out) = some (canonS s) := by
   obtain ⟨h1, h2⟩ := textOK_of_input rep hr pref _ ht
   exact xml_roundtrip_outputside_partial pref hpref rep hr s hn h h1 h2
+
+/-- **xml_roundtrip.**  For every well-nested stream `s`, every legal
+    preferred-prefix table and every encoding that contains ASCII: if
+      * `docOK`: `s` is an XML document whose namespace events the syntax can
+        express (what the parser delivers for a well-formed document, what the
+        builder delivers for arbitrary qualified names),
+      * `inputTextOKm`: local names, prefixes and preferred prefixes are XML
+        names the encoding can represent; namespace URIs and attribute values
+        contain no TAB/LF/CR, character data no CR; comments, PIs, CDATA
+        sections, declaration and DOCTYPE can be written and represented; no
+        `Markup` (pre-escaped) text — the statement's exclusions, nothing else,
+    then `XMLSerializer` produces a text, and from `encode`'s rendering of it
+    (characters of text and attribute values the encoding lacks as character
+    references) an XML reader reads exactly the events `s` denotes — same
+    qualified names, attribute lists, comments, PIs, CDATA sections, declaration,
+    DOCTYPE, and the same character data, adjacent TEXT events being reported as
+    one (`mergeR`), as every XML parser does. -/
+theorem xml_roundtrip (pref : List (Str × Str)) (hpref : prefOK pref = true)
+    (rep : Char → Bool) (hr : AsciiRep rep) (s : Stream)
+    (hn : WellNested s) (h : docOK (emptyTag s) = true)
+    (ht : inputTextOKm rep pref (emptyTag s) = true) :
+    ∃ out, serRun SerSt.init (flatten pref (emptyTag s)) = some out ∧
+      Reader.read (encodeText rep out) = some (mergeR (canonS s)) := by
+  obtain ⟨out, h1, h2⟩ := roundtrip_xev_merged pref hpref rep hr _ h ht
+  exact ⟨out, h1, by rw [h2, canonX_emptyTag s hn]⟩
+
+/-- a builder stream with adjacent and empty strings is inside the hypotheses -/
+example :
+    let s : Stream :=
+      [.start ⟨['u'], ['a']⟩ [(⟨['v'], ['x']⟩, ['1'])], .text ['t'] false, .text [] false, .text ['&'] false,
+       .start ⟨[], ['d']⟩ [], .text [] false, .end_ ⟨[], ['d']⟩, .end_ ⟨['u'], ['a']⟩]
+    WellNested s ∧ docOK (emptyTag s) = true ∧
+    inputTextOKm (inRanges [(0, 127)]) defaultPref (emptyTag s) = true ∧
+    mergeR (canonS s) = [.start ⟨['u'], ['a']⟩ [(⟨['v'], ['x']⟩, ['1'])], .text ['t', '&'],
+      .start ⟨[], ['d']⟩ [], .end_ ⟨[], ['d']⟩, .end_ ⟨['u'], ['a']⟩] := by
+  refine ⟨by decide, by decide, by decide, by decide⟩
 
 /-- **ser_idempotent, partial.**  For every stream in `docOK` that is shaped
     like the parser's (`idemOK`: namespace events directly in front of their
